@@ -33,7 +33,7 @@ SetSymbols == ~ran /\ sink = "ok" /\ logf = "none" /\ symbols = "none" /\ modes 
 \* --recover-function-args is an analysis option of the library: it changes what the reports contain, never which report goes where
 SetRfa == ~ran /\ sink = "ok" /\ logf = "none" /\ ~rfa /\ ~outfile /\ ~pretty /\ features = "stable-basic" /\ input = "valid" /\ rfa' = TRUE /\ UNCHANGED <<modes, brief, pretty, outfile, features, input, symbols, sink, logf, ran>>
 \* a sink whose file cannot be created (its directory does not exist); --log-file, creatable or not
-SetSink == ~ran /\ sink = "ok" /\ symbols = "none" /\ ~rfa /\ features = "stable-basic" /\ sink' \in (IF "cyborg" \in modes THEN {"cyborg_bad"} ELSE {}) \cup (IF outfile THEN {"outfile_bad"} ELSE {})
+SetSink == ~ran /\ sink = "ok" /\ symbols = "none" /\ ~rfa /\ features = "stable-basic" /\ sink' \in (IF "cyborg" \in modes THEN {"cyborg_bad"} ELSE {}) \cup (IF outfile THEN {"outfile_bad", "outfile_full"} ELSE {})
            /\ UNCHANGED <<modes, brief, pretty, outfile, features, input, symbols, rfa, logf, ran>>
 SetLog == ~ran /\ logf = "none" /\ symbols = "none" /\ ~rfa /\ features = "stable-basic" /\ sink = "ok" /\ logf' \in {"ok", "bad"} /\ UNCHANGED <<modes, brief, pretty, outfile, features, input, symbols, rfa, sink, ran>>
 Run == ~ran /\ ran' = TRUE /\ UNCHANGED <<modes, brief, pretty, outfile, features, input, symbols, rfa, sink, logf>>
@@ -59,13 +59,15 @@ Outcome0 ==
   ELSE IF logf = "bad" THEN Silent("stderr")                         \* the log file is opened first
   ELSE IF ~Accepted THEN Silent(Logged)
   ELSE IF ~Readable THEN Silent(Logged)
-  ELSE IF sink # "ok" THEN Silent("stderr")                          \* both sinks are created before anything is written
+  ELSE IF sink \in {"cyborg_bad", "outfile_bad"} THEN Silent("stderr")                          \* both sinks are created before anything is written
   ELSE IF Dump THEN [exit |-> "zero", primary |-> <<IF brief THEN "dump_brief" ELSE "dump">>, cyborg |-> <<>>]      \* the raw dump needs no processing
   ELSE IF input = "unprocessable" THEN Silent(Logged)
   ELSE IF Cyborg THEN [exit |-> "zero", primary |-> <<HumanTok>>, cyborg |-> <<JsonTok>>]
   ELSE IF Json THEN [exit |-> "zero", primary |-> <<JsonTok>>, cyborg |-> <<>>]
   ELSE [exit |-> "zero", primary |-> <<HumanTok>>, cyborg |-> <<>>]
-Outcome == IF "diag" \in DOMAIN Outcome0 THEN Outcome0 ELSE [exit |-> Outcome0.exit, primary |-> Outcome0.primary, cyborg |-> Outcome0.cyborg, diag |-> IF Outcome0.exit = "zero" THEN "none" ELSE "stderr"]
+\* an output file that can be created but not written to (a full device): the report cannot be delivered, so the run fails
+Outcome1 == IF sink = "outfile_full" /\ Outcome0.exit = "zero" THEN Silent("stderr") ELSE Outcome0
+Outcome == IF "diag" \in DOMAIN Outcome1 THEN Outcome1 ELSE [exit |-> Outcome1.exit, primary |-> Outcome1.primary, cyborg |-> Outcome1.cyborg, diag |-> IF Outcome1.exit = "zero" THEN "none" ELSE "stderr"]
 \* ---- design-level properties ----
 \* a failing run never produces a report; a successful one produces exactly one report on the primary sink
 FailureIsSilent == Outcome.exit # "zero" => (Outcome.primary = <<>> /\ Outcome.cyborg = <<>>)
